@@ -1321,6 +1321,11 @@ class ContactHandler(Messenger, dbus.service.Object):
     def recv_xfer_ack(self, transfer_id, flags, length):
         Messenger.recv_xfer_ack(self, transfer_id, flags, length)
 
+        item = self._tx_map.get(transfer_id)
+        if item is None:
+            # Not a transfer of this session
+            raise RejectError(messages.RejectMsg.Reason.UNEXPECTED)
+
         if self._config.modulate_target_ack_time is not None:
             delta_b = length - self._segment_last_ack_len
             self._segment_last_ack_len = length
@@ -1331,7 +1336,6 @@ class ContactHandler(Messenger, dbus.service.Object):
 
             self._modulate_tx_seg_size(delta_b, delta_t)
 
-        item = self._tx_map[transfer_id]
         item.ack_length = length
         if flags & messages.TransferSegment.Flag.END:
             if not self._do_send_ack_final:
